@@ -1,11 +1,10 @@
-mod c01;
-mod c13;
+mod c05;
 
 fn main() {
     let args = vpc::Args::parse();
     match args.prop.as_str() {
-        "C01" => c01::run(&args),
-        "C13" => c13::run(&args),
+        "C05" => c05::run(&args),
+        "C06" | "C07" => c05::run(&args),
         p => vpc::machinery_failure(&format!("property {p} is not served by this binary")),
     }
 }
